@@ -14,6 +14,7 @@ int in_fp_case;
 int main(void)
 {
   g_nt = (struct numtext_ghost){0}; /* dfcc starts statics in an arbitrary state */
+  g_nt.err = nondet_int();          /* errno left behind by whatever ran before: arbitrary */
   econf_file kf;
   size_t num = nondet_size_t();
   kf.alloc_length = nondet_size_t();
